@@ -37,6 +37,7 @@ enum
     K_GET,
     K_SCHED,
     K_BADFRAME,    // caller B: a frame call with a buffer that is too small (the device reports an error)
+    K_FAILALLOC,   // the next SET meets an allocation failure (1st or 2nd buffer), is refused, and is retried
     K_COUNT
 };
 
@@ -45,6 +46,7 @@ const VhKindSpec kKinds[K_COUNT] = {
     { "FRAME", 10, 3, 0, 0, 0 },         { "TRIGGER", 5, 0, 0, 0, 0 },           { "TRIG_FRAME", 4, 0, 0, 0, 0 },
     { "STOP", 3, 3, 0, 0, 0 },           { "SLEEP", 2, 255, 0, 0, 0 },           { "GET", 2, 0, 0, 0, 0 },
     { "SCHED", 4, 255, 65535, 65535, 65535 }, { "BADFRAME", 1, 0, 0, 0, 0 },
+    { "FAILALLOC", 1, 255, 0, 0, 0 },
 };
 
 enum
@@ -70,6 +72,7 @@ enum
     CL_F32,
     CL_FAILED_FRAME_CALL,
     CL_FINE,
+    CL_SET_ALLOC_FAIL,
 };
 
 const VhSpec kSpec = {
@@ -80,7 +83,8 @@ const VhSpec kSpec = {
     { "C17", "C18", nullptr },
     { "camera_random", "camera_sin", "camera_empty", "binning_gt1", "binning_rejected", "multibyte_type_odd_width", "shape_clamped",
       "frame_delivered", "two_configurations", "two_runs", "trigger_mode", "stop_while_frame_call_blocked", "triggers_interleaved_with_frames",
-      "lockstep_trigger_frame", "frame_call_after_stop", "gap_in_hardware_ids", "pct_schedule", "preemptions", "f32", "failed_frame_call_then_restart", "edge_preemptions", nullptr },
+      "lockstep_trigger_frame", "frame_call_after_stop", "gap_in_hardware_ids", "pct_schedule", "preemptions", "f32", "failed_frame_call_then_restart", "edge_preemptions",
+      "set_refused_by_allocation_failure_then_retried", nullptr },
     { "C17 non-trivial: >=1 frame fetched AND (binning > 1 or a multi-byte type with an odd width), or >=2 accepted configurations on one camera",
       "C18 non-trivial: >=2 runs on one camera, or a stop issued while a frame call was blocked, or >=3 triggers interleaved with frame calls",
       nullptr },
@@ -132,10 +136,13 @@ struct Ctx
     bool single_caller = false;
     bool needs_reset = false; // after a failed frame call the camera has to be configured again
     bool fetched_bin_or_odd = false;
+    int pending_alloc_fail = 0; // the next SET's n-th buffer allocation fails (0 = none)
 };
 
 Ctx* g = nullptr;
 DeviceManager g_dm;
+int g_sim_fail_in = 0;      // simulated.camera.c's n-th realloc from now returns NULL (one shot)
+bool g_sim_fail_fired = false;
 
 void
 quiet_reporter(int, const char*, int, const char*, const char*)
@@ -266,7 +273,22 @@ do_set(Ctx& x, const VhTok& t)
     uint8_t asked_binning = p.binning;
     x.c.trace("B: SET binning=%u type=%s shape=(%u,%u) offset=(%u,%u) exposure=%gus trigger=%u", p.binning, sample_type_as_string(p.pixel_type), p.shape.x,
               p.shape.y, p.offset.x, p.offset.y, p.exposure_time_us, p.input_triggers.frame_start.enable);
+    CameraProperties asked = p;
+    g_sim_fail_in = x.pending_alloc_fail;
+    g_sim_fail_fired = false;
+    x.pending_alloc_fail = 0;
     DeviceStatusCode r = camera_set(x.cam, &p);
+    g_sim_fail_in = 0;
+    if (g_sim_fail_fired) {
+        // Out of memory inside the camera's set: the call must be refused (or cope), and -- what the
+        // property is about -- the camera must stay memory-safe.  The caller configures again, as every
+        // real caller does after a refused configuration; nothing is started in between.
+        x.c.cls(CL_SET_ALLOC_FAIL);
+        x.c.nontrivial(0);
+        x.c.trace("    -> %s (injected allocation failure); the same SET again", r == Device_Ok ? "Ok" : "refused");
+        p = asked;
+        r = camera_set(x.cam, &p);
+    }
     uint8_t eff = asked_binning ? asked_binning : 1; // the HAL turns 0 into 1
     bool pow2 = (eff & (eff - 1)) == 0;
     if (!pow2) {
@@ -562,6 +584,10 @@ actor_b(void*)
                 break;
             }
             case K_GET: check_get(x, "GET"); break;
+            case K_FAILALLOC:
+                x.pending_alloc_fail = 1 + (op.t.a & 1);
+                x.c.trace("B: (the next SET meets an allocation failure at its buffer #%d)", x.pending_alloc_fail);
+                break;
         }
     }
     if (!x.c.ended)
@@ -598,6 +624,16 @@ extern "C" struct Driver*
 device_manager_get_driver(const struct DeviceManager*, const struct DeviceIdentifier*)
 {
     return g->driver;
+}
+// simulated.camera.c is compiled with -Drealloc=vh_sim_realloc
+extern "C" void*
+vh_sim_realloc(void* p, size_t n)
+{
+    if (g_sim_fail_in > 0 && --g_sim_fail_in == 0) {
+        g_sim_fail_fired = true;
+        return nullptr; // the old block stays valid, as with the real realloc
+    }
+    return realloc(p, n);
 }
 // basics.driver.c refers to the storage devices; they are not part of this harness.
 extern "C" struct Storage*
